@@ -164,6 +164,10 @@ def line_count(s):
 
 
 # --------------------------------------------------------------------------- weaving
+# self-test switch: desugar every labelled `for` loop (R11w) even without a `continue`
+FORCE_DESUGAR = bool(os.environ.get("VERIF_FORCE_DESUGAR"))
+
+
 def find_anchor(toks, anchor, nth):
     """n-th (1-based) occurrence of the anchor's significant-token sequence; returns (a,b) token range"""
     at = [t.text for t in tokenize(anchor) if t.kind not in ("ws", "comment")]
@@ -246,9 +250,13 @@ def weave_function(src_fn, spec, path, W, opts, meta):
     header_obs = []
     seq = [0]
 
-    def add(at, txt, ob=None):
+    exec_inserts = set()
+
+    def add(at, txt, ob=None, prio=0, is_exec=False):
         seq[0] += 1
-        inserts.append((at, seq[0], txt, ob))
+        inserts.append((at, prio * 100000 + seq[0], txt, ob))
+        if is_exec:
+            exec_inserts.add(prio * 100000 + seq[0])
 
     def ob(kind, c, extra=None):
         d = {"fn": path, "kind": kind, "name": c.name or "", "tags": c.tags, "spec_src": c.src,
@@ -320,6 +328,7 @@ def weave_function(src_fn, spec, path, W, opts, meta):
                 raise ExtractError("%s: lost loop #%d (function has %d loops)" % (path, n, len(loops)))
             (kw, lo, lc) = loops[n - 1]
             label = [c for c in spec.of("loop") if c.arg == n]
+            desugared = None
             if label and label[0].name:
                 # `--- loop N it` : label for-loop iterator  `for x in it: EXPR`
                 if toks[kw].text != "for":
@@ -329,7 +338,32 @@ def weave_function(src_fn, spec, path, W, opts, meta):
                     if toks[j].text in OPEN:
                         j = match_close(toks, j)
                     j = next_sig(toks, j)
-                add(j + 1, " %s: " % label[0].name)
+                own_continue = rules._contains_own_continue(toks, lo + 1, lc)
+                if own_continue or FORCE_DESUGAR:
+                    # R11w: Verus rejects `continue` in `for` loops.  The loop is replaced by Verus's own
+                    # desugaring of `for x in it: E` (as printed by -Zunpretty=expanded), written out in
+                    # source form: wrapper creation, `loop`, `match next() {Some(x) => x, None => break}`.
+                    # The contract clauses are the same ones as for the `for` form.
+                    nm = label[0].name
+                    pat = text(toks, next_sig(toks, kw), j).strip()
+                    expr = text(toks, j + 1, lo).strip()
+                    own_break = rules._contains_own_break(toks, lo + 1, lc)
+                    desugared = {"name": nm, "own_break": own_break}
+                    for dk in range(kw, j + 1):
+                        deleted.add(dk)
+                    add(kw, ("#[verus::internal(loop_isolation_boundary)] { let mut %s = vstd::std_specs::iter::"
+                             "VerusForLoopWrapper::new(core::iter::IntoIterator::into_iter(" % nm), None, prio=1, is_exec=True)
+                    add(lc + 1, " }", None, prio=-1, is_exec=True)
+                    add(lo, ")); let ghost verif_snap_%s = %s.snapshot@; loop " % (nm, nm), None, prio=-1, is_exec=True)
+                    add(lo + 1, (" let ghost verif_old_%s = %s; let %s = match vstd::std_specs::iter::VerusForLoopWrapper"
+                                 "::next(&mut %s) { Some(verif_x) => verif_x, None => break }; proof { assert(vstd::std_specs"
+                                 "::iter::trigger_peek_implications(verif_old_%s.snapshot@.peek(verif_old_%s.index@))); } "
+                                 "let ghost %s = verif_old_%s;" % (nm, nm, pat, nm, nm, nm, nm, nm)), None, prio=-1, is_exec=True)
+                    if opts.get("log") is not None:
+                        opts["log"].append({"rule": "R11w", "loop": n, "label": nm, "pattern": pat,
+                                            "reason": "continue" if own_continue else "forced"})
+                else:
+                    add(j + 1, " %s: " % label[0].name)
             # the loop header itself (implicit iterator-law invariants of `for`): tags = union of the loop's clauses
             ltags = sorted(set(t for c in spec.clauses if c.arg == n and c.kind in ("inv", "invxb", "loopensures") for t in c.tags))
             if ltags:
@@ -339,8 +373,21 @@ def weave_function(src_fn, spec, path, W, opts, meta):
             for (kind, kwd) in (("invxb", "invariant_except_break"), ("inv", "invariant"),
                                 ("loopensures", "ensures"), ("loopdec", "decreases")):
                 cls = [c for c in spec.of(kind) if c.arg == n]
-                if cls:
+                auto = []
+                if desugared:
+                    nm = desugared["name"]
+                    if kind == "invxb":
+                        auto = ["%s.iter.decrease().is_some()" % nm]
+                    elif kind == "inv":
+                        auto = ["%s.snapshot@ == verif_snap_%s" % (nm, nm), "%s.wf()" % nm]
+                    elif kind == "loopensures" and not desugared["own_break"]:
+                        auto = ["%s.snapshot@.will_return_none()" % nm, "%s.index@ == %s.seq().len()" % (nm, nm)]
+                    elif kind == "loopdec" and not cls:
+                        auto = ["%s.iter.decrease().unwrap_or(vstd::pervasive::arbitrary())" % nm]
+                if cls or auto:
                     add(lo, "\n        %s\n" % kwd)
+                    for a_ in auto:
+                        add(lo, "            " + a_ + ",\n")
                     for c in cls:
                         add(lo, "            " + c.body.strip().replace("\n", "\n            ") + ",\n",
                             ob("loop-" + kind, c, {"loop": n}))
@@ -431,8 +478,8 @@ def weave_function(src_fn, spec, path, W, opts, meta):
     ins_i = 0
     for idx in range(len(toks) + 1):
         while ins_i < len(inserts) and inserts[ins_i][0] == idx:
-            _, _, txt, o = inserts[ins_i]
-            if txt.strip():
+            _, okey, txt, o = inserts[ins_i]
+            if txt.strip() and okey not in exec_inserts:
                 lead0 = len(txt) - len(txt.lstrip("\n"))
                 ghost.append((cur_line + lead0, cur_line + txt.rstrip("\n").count("\n")))
             if o is not None:
@@ -506,7 +553,7 @@ def site_obligations(path, woven_text, contracted_names):
 
 
 # --------------------------------------------------------------------------- main assembly
-def rewrite_item_text(src, S, log, sites, is_fn=True, outline=None):
+def rewrite_item_text(src, S, log, sites, is_fn=True, outline=None, keep_for=()):
     src = rules.expand_local_macros(src, S.macros, log, outline)
     src = rules.drop_log_macros(src, log)
     src = rules.panics_to_obligations(src, log, sites)
@@ -514,7 +561,7 @@ def rewrite_item_text(src, S, log, sites, is_fn=True, outline=None):
     src = rules.closure_param_patterns(src, log)
     src = rules.adapter_chains(src, log)
     src = rules.split_headers(src, log)
-    src = rules.loop_headers(src, log)
+    src = rules.loop_headers(src, log, keep_for)
     return src
 
 
@@ -683,7 +730,9 @@ def build(repo, contracts_dir, out_dir, vacuity=False, only=None):
                 txt = text(tt, 0, a0) + rs["with"] + text(tt, a0 + a1, len(tt))
                 flog.append({"rule": rs["rule"], "region_dropped_sha256": hashlib.sha256(dropped.encode()).hexdigest(),
                              "region_lines": dropped.count("\n") + 1, "replaced_with": rs["with"].strip()})
-            txt = rewrite_item_text(txt, S, flog, sites, outline=cfg.get("outline_macros"))
+            sp0 = specs.get(p)
+            keep_for = set(c.arg for c in sp0.of("loop") if c.name) if sp0 else set()
+            txt = rewrite_item_text(txt, S, flog, sites, outline=cfg.get("outline_macros"), keep_for=keep_for)
             txt = txt.replace("engine::", "") if toks is S.ltoks else txt
             for (a, b) in cfg.get("text_subst", {}).get(p, []):
                 if a not in txt:
@@ -695,7 +744,7 @@ def build(repo, contracts_dir, out_dir, vacuity=False, only=None):
                 W.emit("    " + a + "\n")
             if p in cfg.get("external_body", {}):
                 W.emit("    #[verifier::external_body] // ASSUMED: %s\n" % cfg["external_body"][p])
-            woven, obs = weave_function(txt, sp, p, W, {"vacuity": vacuity}, None)
+            woven, obs = weave_function(txt, sp, p, W, {"vacuity": vacuity, "log": flog}, None)
             base = W.line
             sobs = site_obligations(p, woven, contracted_names)
             ghost_ranges = [(base + a, base + b) for (a, b) in weave_function.last_ghost]
